@@ -52,6 +52,26 @@ type Options struct {
 	Verbose bool
 	// Tier is "quick" or "thorough".
 	Tier string
+	// Early, when set, receives a description of the run before the simulation
+	// starts, so that it is available even if the code under test panics.
+	Early func(sample any)
+	// Tag, when set, records a condition observed during the run; a panic of
+	// the code under test carries the tags in its signature.
+	Tag func(tag string)
+}
+
+// Note records a tag (no-op when nobody listens).
+func (o Options) Note(tag string) {
+	if o.Tag != nil {
+		o.Tag(tag)
+	}
+}
+
+// Describe reports the run description early (no-op when nobody listens).
+func (o Options) Describe(sample any) {
+	if o.Early != nil {
+		o.Early(sample)
+	}
 }
 
 // Harness is one property's simulated check.
@@ -95,6 +115,17 @@ func Bug(format string, args ...any) {
 
 // SafeRun runs the harness and converts panics into results.
 func SafeRun(h Harness, ch *choice.Source, opt Options) (res Result) {
+	var early any
+	opt.Early = func(s any) { early = s }
+	var tags []string
+	opt.Tag = func(t string) {
+		for _, x := range tags {
+			if x == t {
+				return
+			}
+		}
+		tags = append(tags, t)
+	}
 	defer func() {
 		if r := recover(); r != nil {
 			if hb, ok := r.(HarnessBugPanic); ok {
@@ -105,15 +136,21 @@ func SafeRun(h Harness, ch *choice.Source, opt Options) (res Result) {
 			where := panicSite(stack)
 			res.Rule = "PANIC"
 			res.Signature = where
+			for _, t := range tags {
+				res.Signature += "/" + t
+			}
 			res.Detail = fmt.Sprintf("panic: %v", r)
 			if strings.Contains(where, "verif/dsim/") {
 				// the panic originated in harness code, not in the code under test
 				res = Result{HarnessBug: fmt.Sprintf("panic in harness code at %s: %v\n%s", where, r, stack)}
 				return
 			}
-			if opt.Verbose {
-				res.Log = append(res.Log, strings.Split(stack, "\n")...)
+			res.Sample = early
+			lines := strings.Split(stack, "\n")
+			if len(lines) > 40 {
+				lines = lines[:40]
 			}
+			res.Log = append(res.Log, lines...)
 		}
 		res.Draws = ch.Draws()
 	}()
